@@ -86,6 +86,18 @@ CLAIMED['C08'] = dict(
     technique='contract-based deductive verification: clang JSON AST -> typestate contracts (requires/ensures invalidated) checked per function over all paths',
     design='3 C08')
 
+CLAIMED['C03'] = dict(
+    text='Proof of the line-set kernel of directors.py for all inputs and all histories of calls: _LineSet.__init__/set_line/start_range/'
+         '__contains__ against the view member(k) (per-line entries override the parity of transitions <= k): set_line changes exactly '
+         'one line, start_range changes exactly the lines >= its argument that have no per-line entry and raises iff out of order, '
+         '__contains__ reads the view without modifying it. Director._process_disable/filter_error and the parser are covered only by a '
+         'bounded sweep through the real VM (every reported error x trailing disable / type: ignore / stand-alone range).',
+    note='Trusted: engine/, z3, A-LIB (bisect.bisect contract on strictly increasing lists; uniqueness proved as a lemma). Known deviation F6 '
+         '(a trailing disable inside a multi-line statement is also recorded on the statement\'s first line, by design) is outside the sweep\'s '
+         'single-line programs and documented in DESIGN.md. Unverified surround: parser.py, Director methods, VM line attribution, eval_expr.',
+    technique='contract-based deductive verification: Python ast -> VC generator -> z3 (spec lemmas for bisect); bounded VM sweep for the surround',
+    design='3 C03')
+
 NOT_APPLICABLE = {
     'C01': 'whole abstract interpreter vs CPython execution: no function-level contract expresses over-approximation of execution (DESIGN 4)',
     'C02': 'decided by matcher.py (2000 lines) on live VM values; the inhabitant oracle quantifies over programs, not one call (DESIGN 4)',
